@@ -52,6 +52,17 @@ Theorem C02_climber_groups_by_table : forall a rest,
   exists t, parse string string xprec xright a rest = Some (t, []) /\
             first string string t = a /\ toks string string t = rest /\ ok string string xprec xright t.
 Proof. exact (climber_sound string string xprec xright). Qed.
+(* ... and that grouping is the ONLY one that respects the table: two table-respecting trees with the same operands and
+   operators in the same order are equal; hence the flat spelling (no parentheses) of any table-respecting tree is parsed back
+   to exactly that tree - for every tree, of any size *)
+Theorem C02_grouping_unique : forall t1 t2,
+  ok string string xprec xright t1 -> ok string string xprec xright t2 ->
+  first string string t1 = first string string t2 -> toks string string t1 = toks string string t2 -> t1 = t2.
+Proof. exact (ok_unique string string xprec xright). Qed.
+Theorem C02_climber_complete : forall t, ok string string xprec xright t ->
+  parse string string xprec xright (first string string t) (toks string string t) = Some (t, []).
+Proof. exact (climber_complete string string xprec xright). Qed.
+
 Example C02_precedence_example :
   group "1" [("+", "2"); ("*", "3"); ("**", "2"); ("**", "2"); ("-", "4"); ("<", "5"); ("&&", "t"); ("||", "u")]
   = "(((((1 + (2 * (3 ** (2 ** 2)))) - 4) < 5) && t) || u)" /\
@@ -66,3 +77,5 @@ Print Assumptions C02_operator_table.
 Print Assumptions C02_operator_table_wellformed.
 Print Assumptions C02_climber_groups_by_table.
 Print Assumptions C02_precedence_example.
+Print Assumptions C02_grouping_unique.
+Print Assumptions C02_climber_complete.
